@@ -140,3 +140,18 @@ Theorem C12_encode_under_faults : forall sof s k e s' k', answers s -> sink_answ
     (forall err, e = Some err -> exists rest, slip_encode sof consumed = sent ++ rest).
 Proof. exact slip_encode_op_spec. Qed.
 Print Assumptions C12_encode_under_faults.
+
+(* the fault theorems are not vacuous: a chunk-style source that delivers "a ESC" and then fails with EIO, a sink that takes two
+   octets and then fails - the hypotheses hold, the decoder stops with the driver's code and "a" in the sink *)
+Example C12_faults_example :
+  let s := {| s_octet := false; s_stream := [97; 219; 220; 98; 192]; s_script := [Give 1; Give 1; Fail EIO]; s_calls := 0 |} in
+  let k := {| k_octet := true; k_got := []; k_script := [Give 1; Give 1; Fail EPIPE]; k_calls := 0 |} in
+  answers s /\ no_ilseq s /\ sink_answers k /\
+  match slip_decode_op false Normal s k with
+  | Some (rc, st', s', k') => (rc, st', s_stream s', k_got k') = (DFail EIO, Normal, [220; 98; 192], [97])
+  | None => False
+  end.
+Proof.
+  split; [repeat constructor; cbn; lia|]. split; [intros [H|[H|[H|[]]]]; discriminate|]. split; [repeat constructor; cbn; lia|].
+  vm_compute. reflexivity.
+Qed.
